@@ -1,12 +1,72 @@
-//! Simulated `std::thread::spawn`.
-pub struct JoinHandle {
+//! Simulated `std::thread::spawn` / `JoinHandle`.
+use std::sync::{Arc, Mutex};
+
+pub struct JoinHandle<T> {
     pub tid: usize,
+    result: Arc<Mutex<Option<T>>>,
 }
 
-pub fn spawn<F>(f: F) -> JoinHandle
+pub fn spawn<F, T>(f: F) -> JoinHandle<T>
 where
-    F: FnOnce() + Send + 'static,
+    F: FnOnce() -> T + Send + 'static,
+    T: Send + 'static,
 {
-    let tid = crate::kernel::spawn(Box::new(f));
-    JoinHandle { tid }
+    let result = Arc::new(Mutex::new(None));
+    let slot = result.clone();
+    let tid = crate::kernel::spawn(Box::new(move || {
+        let v = f();
+        *slot.lock().unwrap_or_else(|e| e.into_inner()) = Some(v);
+    }));
+    JoinHandle { tid, result }
+}
+
+impl<T> JoinHandle<T> {
+    /// Blocks (in simulated time) until the thread has exited.
+    pub fn join(self) -> std::thread::Result<T> {
+        let panicked = crate::kernel::join(self.tid);
+        match self.result.lock().unwrap_or_else(|e| e.into_inner()).take() {
+            Some(v) => Ok(v),
+            None => Err(Box::new(panicked.unwrap_or_else(|| "thread ended without a result".to_string()))),
+        }
+    }
+
+    pub fn is_finished(&self) -> bool {
+        crate::kernel::is_finished(self.tid)
+    }
+}
+
+/// `std::thread::sleep` in simulated time.
+pub fn sleep(d: std::time::Duration) {
+    crate::kernel::sleep_ns(crate::time::dur_ns(d));
+}
+
+/// `std::thread::yield_now`: a scheduling point.
+pub fn yield_now() {
+    crate::kernel::yield_now();
+}
+
+/// `std::thread::Builder` (name and stack size are accepted and ignored).
+#[derive(Default, Debug)]
+pub struct Builder {
+    _name: Option<String>,
+}
+
+impl Builder {
+    pub fn new() -> Builder {
+        Builder::default()
+    }
+    pub fn name(mut self, name: String) -> Builder {
+        self._name = Some(name);
+        self
+    }
+    pub fn stack_size(self, _size: usize) -> Builder {
+        self
+    }
+    pub fn spawn<F, T>(self, f: F) -> std::io::Result<JoinHandle<T>>
+    where
+        F: FnOnce() -> T + Send + 'static,
+        T: Send + 'static,
+    {
+        Ok(spawn(f))
+    }
 }
